@@ -453,6 +453,41 @@ func frtSweep() {
 	expect("frt.Sprintf1", "%s str", frt.Sprintf1("%s", "str"), "str")
 	expect("frt.Sprintf2", "%s %d", frt.Sprintf2("%s=%d", "k", 3), "k=3")
 	expect("frt.SInterP", "no args", frt.SInterP("plain"), "plain")
+	// SInterP formats: every sequence of up to 4 (thorough 6) tokens out of hole, doubled percent and
+	// letters that form a verb when they follow a percent sign; fc emits exactly such formats for $"..."
+	{
+		toks := []string{"%s", "%%", "s", "d", "x "}
+		maxTok := 4
+		if len(os.Args) > 1 && os.Args[1] == "thorough" {
+			maxTok = 6
+		}
+		var gen func(prefix string, holes, left int)
+		gen = func(prefix string, holes, left int) {
+			args := make([]any, holes)
+			for i := range args {
+				args[i] = string(rune('A' + i))
+			}
+			in := fmt.Sprintf("format %q with %d holes", prefix, holes)
+			noPanic("frt.SInterP", in, func() {
+				expect("frt.SInterP", in, frt.SInterP(prefix, args...), fmt.Sprintf(prefix, args...))
+			})
+			rep.Distinct++
+			if gostrings.Contains(prefix, "%%") {
+				rep.Nontrivial++
+			}
+			if left == 0 {
+				return
+			}
+			for _, t := range toks {
+				h := holes
+				if t == "%s" {
+					h++
+				}
+				gen(prefix+t, h, left-1)
+			}
+		}
+		gen("", 0, maxTok)
+	}
 	// Printf1 / Println write to stdout: captured through a pipe
 	{
 		r, w, _ := os.Pipe()
